@@ -239,7 +239,13 @@ fn gen_fields_n(r: &mut R, pool: &[PoolTy], pinned: bool, n: usize, avoid_key: O
             ident = r.pick(FIELD_IDENTS).to_string();
         }
         if fields.iter().any(|f| f.ident == ident) {
-            continue;
+            if n > 30 && fields.len() >= 24 {
+                // the identifier pool is smaller than a very wide struct: synthetic letters-only identifiers
+                let i = fields.len();
+                ident = format!("wide_{}{}", (b'a' + (i / 26) as u8) as char, (b'a' + (i % 26) as u8) as char);
+            } else {
+                continue;
+            }
         }
         let _ = avoid_key;
         let src = r.pick(pool).clone();
@@ -438,12 +444,13 @@ fn emit_src_const(out: &mut Out, name: &str, src: &str) {
     out.code.push_str(src);
 }
 
-fn gen_struct(r: &mut R, out: &mut Out, name: &str, pool: &[PoolTy], pinned: bool, wide: bool) {
+fn gen_struct(r: &mut R, out: &mut Out, name: &str, pool: &[PoolTy], pinned: bool, wide: usize) {
     let (ra, fields) = loop {
         let ra = gen_ra(r);
         // a wide struct (> 20 fields) exercises everything that depends on the number of fields
-        let fields = if wide {
-            let n = 21 + r.below(8);
+        let fields = if wide > 0 {
+            // 21..28 and 65..72 fields: past the sizes of a u16/u32/u64 bookkeeping word
+            let n = wide + r.below(8);
             gen_fields_n(r, pool, pinned, n, None)
         } else {
             gen_fields(r, pool, pinned, 6, None)
@@ -785,11 +792,11 @@ fn main() {
         let name = format!("G{k}");
         let usable: Vec<PoolTy> = pool.clone();
         let before = out.code.len();
-        let kind = if k == 5 { r.below(9) } else { r.below(20) };
+        let kind = if k == 5 || k == 6 { r.below(9) } else { r.below(20) };
         let (generic, level) = match kind {
             0..=8 => {
-                // exactly one wide struct per program set
-                gen_struct(&mut r, &mut out, &name, &usable, false, k == 5);
+                // exactly two wide structs per program set: more than 20 and more than 64 fields
+                gen_struct(&mut r, &mut out, &name, &usable, false, if k == 5 { 21 } else if k == 6 { 65 } else { 0 });
                 (true, 1)
             }
             9..=13 => {
@@ -805,7 +812,7 @@ fn main() {
                 (true, 1)
             }
             _ => {
-                gen_struct(&mut r, &mut out, &name, &usable, true, false);
+                gen_struct(&mut r, &mut out, &name, &usable, true, 0);
                 (false, 1)
             }
         };
